@@ -4,6 +4,8 @@ CONSTANTS
   Ns <- N4
   MaxMsgs = 2
   CasesPerBehaviour = 0
+  MHeads = {1, 2}
+  MChanges = {0, 1}
 INVARIANTS MalformedNeverCounted GhostWellDefined TargetCapped FinalisableChain
 PROPERTY Monotone
 VIEW View
